@@ -171,6 +171,7 @@ fn run_queue(ops: &[QOp], ctx: &mut Ctx, upto: usize) -> Result<(IOQueue, QModel
                 m.consume(amt);
             }
             QOp::ClearButLast => {
+                ctx.feat_if(m.chunks.front().is_some_and(|c| c.len() > (1 << 20)), "queue.clear_but_last.front-frame>1MiB");
                 q.clear_but_last();
                 while m.chunks.len() > 1 {
                     m.chunks.pop_back();
@@ -204,7 +205,8 @@ fn run_queue(ops: &[QOp], ctx: &mut Ctx, upto: usize) -> Result<(IOQueue, QModel
 
 fn drain(q: &mut IOQueue, bound: usize) -> Result<Vec<u8>, Fail> {
     let mut out = Vec::new();
-    let mut buf = [0u8; 7];
+    // odd small reads, larger ones once the queue holds a lot
+    let mut buf = vec![0u8; if q.len() > 100_000 { 65_537 } else { 7 }];
     let mut steps = 0;
     while !q.is_empty() {
         let n = q.read(&mut buf).map_err(|e| Fail::new("queue:io", format!("{e}")))?;
@@ -559,8 +561,13 @@ impl Prop for C16 {
             return Case::Term { script, drain, seed: rng.next_u64() };
         }
         let n = rng.range(1, if tier.quick() { 40 } else { 60 });
+        // one history in 24 builds frames of megabytes out of several writes (no chunk may end
+        // anywhere but at a flush, however large it grows)
+        let big = rng.chance(1, 24) && !cfg!(miri);
         let ops = (0..n)
             .map(|_| match rng.below(12) {
+                0 if big => QOp::Write(*rng.pick(&[65_536usize, 300_000, 524_288, 700_000, 1_048_575, 1_048_576, 1_048_577])),
+                6..=9 if big => QOp::Read(*rng.pick(&[65_536usize, 1 << 20, 3 << 20])),
                 0..=3 => QOp::Write(*rng.pick(&[0usize, 1, 2, 3, 5, 8, 13, 64])),
                 4 | 5 => QOp::Flush,
                 6 => QOp::Read(rng.range(0, 9)),
